@@ -23,6 +23,9 @@ func genC03(r *simrt.Rand, tier string, idx int) *hx.Program {
 	p := &hx.Program{P: map[string]int64{}}
 	p.P["seg"] = []int64{1, 29, 64, 100, 257, 1024}[r.Intn(6)]
 	p.P["sticky"] = []int64{0, 30, 70, 90}[r.Intn(4)]
+	p.P["timeskip"] = []int64{0, 0, 5, 40}[r.Intn(4)] // per mille of the scheduling steps at which time passes although tasks are runnable
+	p.P["skipmax_ms"] = []int64{50, 2000, 30000}[r.Intn(3)]
+	p.P["cleaner_s"] = []int64{1, 5, 300}[r.Intn(3)] // the cleaner's tick also rolls the active segment by age
 	p.P["segage_s"] = []int64{0, 0, 3}[r.Intn(3)]
 	p.P["final_ro"] = int64(r.Intn(2)) // a log that is read-only at the end stays so while the rest is committed
 	n := 6 + r.Intn(30)
@@ -118,7 +121,7 @@ func execC03(t *testing.T, prog *hx.Program, dec *simrt.Decider, verbose bool) *
 	)
 	oc := runH1(t, prog, dec, verbose, func(h *h1) {
 		seg := prog.Param("seg", 100)
-		h.opts = Options{Path: h.dir, MaxSegmentBytes: seg, MaxSegmentAge: time.Duration(prog.Param("segage_s", 0)) * time.Second}
+		h.opts = Options{Path: h.dir, MaxSegmentBytes: seg, MaxSegmentAge: time.Duration(prog.Param("segage_s", 0)) * time.Second, CleanerInterval: time.Duration(prog.Param("cleaner_s", 300)) * time.Second}
 		if _, err := h.open(); err != nil {
 			h.oc.Trouble = "open: " + err.Error()
 			return
@@ -344,6 +347,7 @@ func execC03(t *testing.T, prog *hx.Program, dec *simrt.Decider, verbose bool) *
 			return
 		}
 		// quiesce: no more appends; commit everything; every reader must catch up
+		h.s.SetTimeSkips(false) // (the bound below assumes that runnable readers are not delayed)
 		if ro && prog.Param("final_ro", 0) == 0 {
 			log.SetReadonly(false)
 		}
